@@ -2,20 +2,333 @@
   C11 / LITS — classification of the tetrominoes: two tetrominoes (four orthogonally connected cells, not a
   2 × 2 square) are congruent under a symmetry of the square lattice followed by a translation iff their
   codes (number of straight middles, existence of a cell with three neighbours) agree.
+
+  Plan: `SameShape` is symmetric and transitive (`C11LitsShapeSym`), the code is invariant under `SameShape`
+  (`C11LitsShapeInv`); here: every tetromino is congruent to one of the four canonical shapes I, L, S, T
+  (its adjacency graph has three edges and no isolated cell (`C11LitsG.counts_of_connected`), hence is a star
+  or a path; a finite check over the unit steps of the star / path gives the symmetry), and the codes of the
+  four canonical shapes are pairwise different.
 -/
 import Mathlib.Data.Set.Card
+import Mathlib.Data.Fintype.Basic
+import Mathlib.Tactic.Abel
 import CspuzModel.Spec.PuzzleRules.Lits
 import CspuzModel.Proofs.C11LitsG
+import CspuzModel.Proofs.C11LitsShapeSym
+import CspuzModel.Proofs.C11LitsShapeInv
 namespace Cspuz.Proofs.C11LitsShape
-open Cspuz Cspuz.Spec Cspuz.Spec.Lits
+open Cspuz Cspuz.Spec Cspuz.Spec.Lits Cspuz.Proofs.C11LitsG Cspuz.Proofs.C11LitsShapeSym
+  Cspuz.Proofs.C11LitsShapeInv
 
 /-- `S` contains no 2 × 2 square. -/
 def NoSqSet (S : Set (Nat × Nat)) : Prop :=
   ¬ ∃ y x, (y, x) ∈ S ∧ (y, x + 1) ∈ S ∧ (y + 1, x) ∈ S ∧ (y + 1, x + 1) ∈ S
 
+/-! ### the four canonical shapes and their codes -/
+
+/-- The four tetromino shapes of LITS. -/
+inductive Shape where
+  | I | L | S | T
+  deriving DecidableEq
+
+/-- The cells of the canonical tetromino of a shape. -/
+def canonList : Shape → List (Nat × Nat)
+  | .I => [(0, 0), (0, 1), (0, 2), (0, 3)]
+  | .L => [(0, 0), (0, 1), (0, 2), (1, 2)]
+  | .S => [(0, 0), (0, 1), (1, 1), (1, 2)]
+  | .T => [(0, 1), (0, 0), (0, 2), (1, 1)]
+
+/-- The canonical tetromino of a shape. -/
+def canon (k : Shape) : Set (Nat × Nat) := {x | x ∈ canonList k}
+
+theorem ncard_list (L : List (Nat × Nat)) (hnd : L.Nodup) : {x | x ∈ L}.ncard = L.length := by
+  have h : {x | x ∈ L} = (↑L.toFinset : Set (Nat × Nat)) := by
+    ext x
+    simp
+  rw [h, Set.ncard_coe_finset, List.toFinset_card_of_nodup hnd]
+
+theorem finite_list (L : List (Nat × Nat)) : {x | x ∈ L}.Finite := L.finite_toSet
+
+theorem straightCount_list (L : List (Nat × Nat)) (hnd : L.Nodup) :
+    straightCount {x | x ∈ L} = (L.filter (midB L)).length := by
+  have h : {p | StraightMid {x | x ∈ L} p} = {x | x ∈ L.filter (midB L)} := by
+    ext p
+    simp only [Set.mem_ofPred_eq, List.mem_filter, midB_iff]
+    exact ⟨fun h => ⟨h.1, h⟩, fun h => h.2⟩
+  rw [straightCount, h, ncard_list _ (hnd.filter _)]
+
+theorem hasT_list (L : List (Nat × Nat)) (hnd : L.Nodup) :
+    HasT {x | x ∈ L} ↔ ∃ p ∈ L, 3 ≤ (L.filter (adjB p)).length := by
+  have h : ∀ p, {q | q ∈ {x | x ∈ L} ∧ cellGraph.Adj p q}.ncard = (L.filter (adjB p)).length := by
+    intro p
+    rw [← ncard_list _ (hnd.filter _)]
+    congr 1
+    ext q
+    simp only [Set.mem_ofPred_eq, List.mem_filter, adjB_iff]
+  constructor
+  · rintro ⟨p, hp, h3⟩
+    exact ⟨p, hp, by rwa [h] at h3⟩
+  · rintro ⟨p, hp, h3⟩
+    exact ⟨p, hp, by rwa [h]⟩
+
+theorem canon_straightCount (k : Shape) :
+    straightCount (canon k) = match k with | .I => 2 | .L => 1 | .S => 0 | .T => 1 := by
+  cases k <;> rw [canon, straightCount_list _ (by decide)] <;> decide
+
+theorem canon_hasT (k : Shape) : HasT (canon k) ↔ k = .T := by
+  cases k <;> rw [canon, hasT_list _ (by decide)] <;> decide
+
+theorem canon_code_inj {i j : Shape} (h : SameCode (canon i) (canon j)) : i = j := by
+  obtain ⟨h1, h2⟩ := h
+  rw [canon_straightCount, canon_straightCount] at h1
+  rw [canon_hasT, canon_hasT] at h2
+  cases i <;> cases j <;> simp_all
+
+/-! ### unit steps as Booleans, and the two finite checks -/
+
+/-- The four unit vectors: `ax` = along the first coordinate, `ng` = negative direction. -/
+def dirVec (ax ng : Bool) : Int × Int :=
+  if ax then (if ng then (-1, 0) else (1, 0)) else (if ng then (0, -1) else (0, 1))
+
+instance : DecidablePred IsUnitVec := fun d => by unfold IsUnitVec; infer_instance
+
+theorem dir_of_unit {d : Int × Int} (h : IsUnitVec d) : ∃ ax ng, d = dirVec ax ng := by
+  rcases h with rfl | rfl | rfl | rfl
+  · exact ⟨true, false, rfl⟩
+  · exact ⟨true, true, rfl⟩
+  · exact ⟨false, false, rfl⟩
+  · exact ⟨false, true, rfl⟩
+
+/-- The images of the three difference vectors of a path `x – y – z – w` (from `x`) are those of the canonical
+I, L (from either end) or S. -/
+def PathAlt (f : Int × Int → Int × Int) (e1 e2 e3 : Int × Int) : Prop :=
+  (f e1 = (0, 1) ∧ f e2 = (0, 2) ∧ f e3 = (0, 3)) ∨
+  (f e1 = (0, 1) ∧ f e2 = (0, 2) ∧ f e3 = (1, 2)) ∨
+  (f e1 = (-1, 0) ∧ f e2 = (-1, -1) ∧ f e3 = (-1, -2)) ∨
+  (f e1 = (0, 1) ∧ f e2 = (1, 1) ∧ f e3 = (1, 2))
+
+instance (f : Int × Int → Int × Int) (e1 e2 e3 : Int × Int) : Decidable (PathAlt f e1 e2 e3) := by
+  unfold PathAlt; infer_instance
+
+/-- A path of three unit steps that does not turn back and whose ends are not adjacent: some lattice symmetry
+maps it onto the canonical I, L or S. -/
+theorem path_classify : ∀ a1 n1 a2 n2 a3 n3 : Bool,
+    dirVec a1 n1 + dirVec a2 n2 ≠ 0 →
+    dirVec a1 n1 + dirVec a2 n2 + dirVec a3 n3 ≠ dirVec a1 n1 →
+    ¬ IsUnitVec (dirVec a1 n1 + dirVec a2 n2 + dirVec a3 n3) →
+    ∃ s n m : Bool, PathAlt (latticeSym s n m) (dirVec a1 n1) (dirVec a1 n1 + dirVec a2 n2)
+      (dirVec a1 n1 + dirVec a2 n2 + dirVec a3 n3) := by
+  decide
+
+/-- The images of the three arms of a star are the three arms of the canonical T, in some order. -/
+def StarAlt (f : Int × Int → Int × Int) (e1 e2 e3 : Int × Int) : Prop :=
+  (f e1 = (0, -1) ∧ f e2 = (0, 1) ∧ f e3 = (1, 0)) ∨
+  (f e1 = (0, -1) ∧ f e2 = (1, 0) ∧ f e3 = (0, 1)) ∨
+  (f e1 = (0, 1) ∧ f e2 = (0, -1) ∧ f e3 = (1, 0)) ∨
+  (f e1 = (0, 1) ∧ f e2 = (1, 0) ∧ f e3 = (0, -1)) ∨
+  (f e1 = (1, 0) ∧ f e2 = (0, -1) ∧ f e3 = (0, 1)) ∨
+  (f e1 = (1, 0) ∧ f e2 = (0, 1) ∧ f e3 = (0, -1))
+
+instance (f : Int × Int → Int × Int) (e1 e2 e3 : Int × Int) : Decidable (StarAlt f e1 e2 e3) := by
+  unfold StarAlt; infer_instance
+
+theorem star_classify : ∀ a1 n1 a2 n2 a3 n3 : Bool,
+    dirVec a1 n1 ≠ dirVec a2 n2 → dirVec a1 n1 ≠ dirVec a3 n3 → dirVec a2 n2 ≠ dirVec a3 n3 →
+    ∃ s n m : Bool, StarAlt (latticeSym s n m) (dirVec a1 n1) (dirVec a2 n2) (dirVec a3 n3) := by
+  decide
+
+/-- A graph on `a, b, c, d` with three edges and no isolated vertex is a star or a path (Boolean form). -/
+theorem graph_casesB : ∀ ab ac ad bc bd cd : Bool,
+    ab.toNat + ac.toNat + ad.toNat + bc.toNat + bd.toNat + cd.toNat = 3 →
+    (ab || ac || ad) = true → (ab || bc || bd) = true → (ac || bc || cd) = true → (ad || bd || cd) = true →
+    ((ab && ac && ad) || (ab && bc && bd) || (ac && bc && cd) || (ad && bd && cd) ||
+    (ac && cd && bd && !ab) || (ad && cd && bc && !ab) ||
+    (ab && bd && cd && !ac) || (ad && bd && bc && !ac) ||
+    (ab && bc && cd && !ad) || (ac && bc && bd && !ad) ||
+    (ab && ad && cd && !bc) || (bd && ad && ac && !bc) ||
+    (ab && ac && cd && !bd) || (bc && ac && ad && !bd) ||
+    (ac && ab && bd && !cd) || (bc && ab && ad && !cd)) = true := by
+  decide
+
+/-- A graph on `a, b, c, d` with three edges and no isolated vertex is a star (four cases: the centre) or a
+path (twelve cases). -/
+theorem graph_cases (ab ac ad bc bd cd : Bool)
+    (h : ab.toNat + ac.toNat + ad.toNat + bc.toNat + bd.toNat + cd.toNat = 3)
+    (h1 : (ab || ac || ad) = true) (h2 : (ab || bc || bd) = true) (h3 : (ac || bc || cd) = true)
+    (h4 : (ad || bd || cd) = true) :
+    (ab = true ∧ ac = true ∧ ad = true) ∨ (ab = true ∧ bc = true ∧ bd = true) ∨
+    (ac = true ∧ bc = true ∧ cd = true) ∨ (ad = true ∧ bd = true ∧ cd = true) ∨
+    (ac = true ∧ cd = true ∧ bd = true ∧ ab = false) ∨ (ad = true ∧ cd = true ∧ bc = true ∧ ab = false) ∨
+    (ab = true ∧ bd = true ∧ cd = true ∧ ac = false) ∨ (ad = true ∧ bd = true ∧ bc = true ∧ ac = false) ∨
+    (ab = true ∧ bc = true ∧ cd = true ∧ ad = false) ∨ (ac = true ∧ bc = true ∧ bd = true ∧ ad = false) ∨
+    (ab = true ∧ ad = true ∧ cd = true ∧ bc = false) ∨ (bd = true ∧ ad = true ∧ ac = true ∧ bc = false) ∨
+    (ab = true ∧ ac = true ∧ cd = true ∧ bd = false) ∨ (bc = true ∧ ac = true ∧ ad = true ∧ bd = false) ∨
+    (ac = true ∧ ab = true ∧ bd = true ∧ cd = false) ∨ (bc = true ∧ ab = true ∧ ad = true ∧ cd = false) := by
+  have := graph_casesB ab ac ad bc bd cd h h1 h2 h3 h4
+  simpa only [Bool.or_eq_true, Bool.and_eq_true, Bool.not_eq_true', or_assoc, and_assoc] using this
+
+/-! ### a path or a star of cells is congruent to a canonical shape -/
+
+theorem castC_sub_ne_zero {x z : Nat × Nat} (h : x ≠ z) : castC z - castC x ≠ 0 := by
+  intro h0
+  exact h (castC_injective (sub_eq_zero.1 h0)).symm
+
+theorem castC_sub_ne {x y w : Nat × Nat} (h : y ≠ w) : castC w - castC x ≠ castC y - castC x := by
+  intro h0
+  exact h (castC_injective (sub_left_injective h0)).symm
+
+theorem mem_canon_iff (k : Shape) (c0 c1 c2 c3 : Nat × Nat) (h : canonList k = [c0, c1, c2, c3])
+    (p : Nat × Nat) : p ∈ canon k ↔ p = c0 ∨ p = c1 ∨ p = c2 ∨ p = c3 := by
+  show p ∈ canonList k ↔ _
+  rw [h]
+  simp
+
+/-- Cells `x – y – z – w` forming a path without further adjacency between `x` and `w`. -/
+theorem path_shape (S : Set (Nat × Nat)) (x y z w : Nat × Nat)
+    (hS : ∀ p, p ∈ S ↔ p = x ∨ p = y ∨ p = z ∨ p = w) (hxz : x ≠ z) (hyw : y ≠ w)
+    (h1 : adjB x y = true) (h2 : adjB y z = true) (h3 : adjB z w = true) (h4 : adjB x w = false) :
+    ∃ k, SameShape S (canon k) := by
+  have u1 := (adj_iff_unit x y).1 ((adjB_iff x y).1 h1)
+  have u2 := (adj_iff_unit y z).1 ((adjB_iff y z).1 h2)
+  have u3 := (adj_iff_unit z w).1 ((adjB_iff z w).1 h3)
+  have u4 : ¬ IsUnitVec (castC w - castC x) := by
+    intro hu
+    have := (adjB_iff x w).2 ((adj_iff_unit x w).2 hu)
+    rw [h4] at this
+    exact Bool.false_ne_true this
+  have n1 := castC_sub_ne_zero hxz
+  have n2 := castC_sub_ne (x := x) hyw
+  obtain ⟨a1, b1, d1⟩ := dir_of_unit u1
+  obtain ⟨a2, b2, d2⟩ := dir_of_unit u2
+  obtain ⟨a3, b3, d3⟩ := dir_of_unit u3
+  have e2 : castC z - castC x = dirVec a1 b1 + dirVec a2 b2 := by
+    rw [← d1, ← d2]; abel
+  have e3 : castC w - castC x = dirVec a1 b1 + dirVec a2 b2 + dirVec a3 b3 := by
+    rw [← d1, ← d2, ← d3]; abel
+  rw [e2] at n1
+  rw [e3, d1] at n2
+  rw [e3] at u4
+  obtain ⟨s, n, m, h⟩ := path_classify a1 b1 a2 b2 a3 b3 n1 n2 u4
+  rw [← e3, ← e2, ← d1] at h
+  rcases h with ⟨g1, g2, g3⟩ | ⟨g1, g2, g3⟩ | ⟨g1, g2, g3⟩ | ⟨g1, g2, g3⟩
+  · exact ⟨.I, sameShape_of_points S (canon .I) x y z w (0, 0) (0, 1) (0, 2) (0, 3) hS
+      (mem_canon_iff .I _ _ _ _ rfl) s n m (g1.trans (by decide)) (g2.trans (by decide))
+      (g3.trans (by decide))⟩
+  · exact ⟨.L, sameShape_of_points S (canon .L) x y z w (0, 0) (0, 1) (0, 2) (1, 2) hS
+      (mem_canon_iff .L _ _ _ _ rfl) s n m (g1.trans (by decide)) (g2.trans (by decide))
+      (g3.trans (by decide))⟩
+  · exact ⟨.L, sameShape_of_points S (canon .L) x y z w (1, 2) (0, 2) (0, 1) (0, 0) hS
+      (fun p => (mem_canon_iff .L _ _ _ _ rfl p).trans (Iff.of_eq (by ac_rfl))) s n m (g1.trans (by decide))
+      (g2.trans (by decide)) (g3.trans (by decide))⟩
+  · exact ⟨.S, sameShape_of_points S (canon .S) x y z w (0, 0) (0, 1) (1, 1) (1, 2) hS
+      (mem_canon_iff .S _ _ _ _ rfl) s n m (g1.trans (by decide)) (g2.trans (by decide))
+      (g3.trans (by decide))⟩
+
+/-- A cell `x` with three different neighbours `y`, `z`, `w`. -/
+theorem star_shape (S : Set (Nat × Nat)) (x y z w : Nat × Nat)
+    (hS : ∀ p, p ∈ S ↔ p = x ∨ p = y ∨ p = z ∨ p = w) (hyz : y ≠ z) (hyw : y ≠ w) (hzw : z ≠ w)
+    (h1 : adjB x y = true) (h2 : adjB x z = true) (h3 : adjB x w = true) :
+    ∃ k, SameShape S (canon k) := by
+  have u1 := (adj_iff_unit x y).1 ((adjB_iff x y).1 h1)
+  have u2 := (adj_iff_unit x z).1 ((adjB_iff x z).1 h2)
+  have u3 := (adj_iff_unit x w).1 ((adjB_iff x w).1 h3)
+  have n1 := (castC_sub_ne (x := x) hyz).symm
+  have n2 := (castC_sub_ne (x := x) hyw).symm
+  have n3 := (castC_sub_ne (x := x) hzw).symm
+  obtain ⟨a1, b1, d1⟩ := dir_of_unit u1
+  obtain ⟨a2, b2, d2⟩ := dir_of_unit u2
+  obtain ⟨a3, b3, d3⟩ := dir_of_unit u3
+  rw [d1, d2] at n1
+  rw [d1, d3] at n2
+  rw [d2, d3] at n3
+  obtain ⟨s, n, m, h⟩ := star_classify a1 b1 a2 b2 a3 b3 n1 n2 n3
+  rw [← d1, ← d2, ← d3] at h
+  refine ⟨.T, ?_⟩
+  rcases h with ⟨g1, g2, g3⟩ | ⟨g1, g2, g3⟩ | ⟨g1, g2, g3⟩ | ⟨g1, g2, g3⟩ | ⟨g1, g2, g3⟩ | ⟨g1, g2, g3⟩
+  · exact sameShape_of_points S (canon .T) x y z w (0, 1) (0, 0) (0, 2) (1, 1) hS
+      (fun p => (mem_canon_iff .T _ _ _ _ rfl p).trans (Iff.of_eq (by ac_rfl))) s n m (g1.trans (by decide))
+      (g2.trans (by decide)) (g3.trans (by decide))
+  · exact sameShape_of_points S (canon .T) x y z w (0, 1) (0, 0) (1, 1) (0, 2) hS
+      (fun p => (mem_canon_iff .T _ _ _ _ rfl p).trans (Iff.of_eq (by ac_rfl))) s n m (g1.trans (by decide))
+      (g2.trans (by decide)) (g3.trans (by decide))
+  · exact sameShape_of_points S (canon .T) x y z w (0, 1) (0, 2) (0, 0) (1, 1) hS
+      (fun p => (mem_canon_iff .T _ _ _ _ rfl p).trans (Iff.of_eq (by ac_rfl))) s n m (g1.trans (by decide))
+      (g2.trans (by decide)) (g3.trans (by decide))
+  · exact sameShape_of_points S (canon .T) x y z w (0, 1) (0, 2) (1, 1) (0, 0) hS
+      (fun p => (mem_canon_iff .T _ _ _ _ rfl p).trans (Iff.of_eq (by ac_rfl))) s n m (g1.trans (by decide))
+      (g2.trans (by decide)) (g3.trans (by decide))
+  · exact sameShape_of_points S (canon .T) x y z w (0, 1) (1, 1) (0, 0) (0, 2) hS
+      (fun p => (mem_canon_iff .T _ _ _ _ rfl p).trans (Iff.of_eq (by ac_rfl))) s n m (g1.trans (by decide))
+      (g2.trans (by decide)) (g3.trans (by decide))
+  · exact sameShape_of_points S (canon .T) x y z w (0, 1) (1, 1) (0, 2) (0, 0) hS
+      (fun p => (mem_canon_iff .T _ _ _ _ rfl p).trans (Iff.of_eq (by ac_rfl))) s n m (g1.trans (by decide))
+      (g2.trans (by decide)) (g3.trans (by decide))
+
+/-! ### every tetromino is congruent to a canonical shape -/
+
+theorem exists_list (S : Set (Nat × Nat)) (h : S.ncard = 4) :
+    ∃ L : List (Nat × Nat), L.Nodup ∧ L.length = 4 ∧ S = {x | x ∈ L} := by
+  have hfin : S.Finite := Set.finite_of_ncard_ne_zero (by omega)
+  refine ⟨hfin.toFinset.toList, Finset.nodup_toList _, ?_, ?_⟩
+  · rw [Finset.length_toList, ← Set.ncard_eq_toFinset_card S hfin, h]
+  · ext x
+    simp
+
+theorem flip {p q : Nat × Nat} (h : adjB p q = true) : adjB q p = true := (adjB_comm q p).trans h
+
+theorem classify (S : Set (Nat × Nat)) (hT : IsTetromino S) (hsq : NoSqSet S) :
+    ∃ k, SameShape S (canon k) := by
+  obtain ⟨hcard, hconn⟩ := hT
+  obtain ⟨L, hnd, hlen, rfl⟩ := exists_list S hcard
+  obtain ⟨hnb, hpc⟩ := counts_of_connected L hnd hlen hconn hsq
+  obtain ⟨a, b, c, d, rfl, hab, hac, had, hbc, hbd, hcd⟩ := exists_four L hnd hlen
+  obtain ⟨hsum, f1, f2, f3, f4⟩ := bool_facts hab hac had hbc hbd hcd hnb hpc
+  have hS : ∀ p, p ∈ {x | x ∈ [a, b, c, d]} ↔ p = a ∨ p = b ∨ p = c ∨ p = d := by
+    intro p
+    simp
+  rcases graph_cases _ _ _ _ _ _ hsum f1 f2 f3 f4 with
+    ⟨e1, e2, e3⟩ | ⟨e1, e2, e3⟩ | ⟨e1, e2, e3⟩ | ⟨e1, e2, e3⟩ | ⟨e1, e2, e3, e4⟩ | ⟨e1, e2, e3, e4⟩ |
+    ⟨e1, e2, e3, e4⟩ | ⟨e1, e2, e3, e4⟩ | ⟨e1, e2, e3, e4⟩ | ⟨e1, e2, e3, e4⟩ | ⟨e1, e2, e3, e4⟩ |
+    ⟨e1, e2, e3, e4⟩ | ⟨e1, e2, e3, e4⟩ | ⟨e1, e2, e3, e4⟩ | ⟨e1, e2, e3, e4⟩ | ⟨e1, e2, e3, e4⟩
+  -- stars with centre a, b, c, d
+  · exact star_shape _ a b c d hS hbc hbd hcd e1 e2 e3
+  · exact star_shape _ b a c d (fun p => (hS p).trans (Iff.of_eq (by ac_rfl))) hac had hcd (flip e1) e2 e3
+  · exact star_shape _ c a b d (fun p => (hS p).trans (Iff.of_eq (by ac_rfl))) hab had hbd (flip e1) (flip e2) e3
+  · exact star_shape _ d a b c (fun p => (hS p).trans (Iff.of_eq (by ac_rfl))) hab hac hbc (flip e1) (flip e2) (flip e3)
+  -- paths
+  · exact path_shape _ a c d b (fun p => (hS p).trans (Iff.of_eq (by ac_rfl))) had hbc.symm e1 e2 (flip e3) e4
+  · exact path_shape _ a d c b (fun p => (hS p).trans (Iff.of_eq (by ac_rfl))) hac hbd.symm e1 (flip e2) (flip e3) e4
+  · exact path_shape _ a b d c (fun p => (hS p).trans (Iff.of_eq (by ac_rfl))) had hbc e1 e2 (flip e3) e4
+  · exact path_shape _ a d b c (fun p => (hS p).trans (Iff.of_eq (by ac_rfl))) hab hcd.symm e1 (flip e2) e3 e4
+  · exact path_shape _ a b c d hS hac hbd e1 e2 e3 e4
+  · exact path_shape _ a c b d (fun p => (hS p).trans (Iff.of_eq (by ac_rfl))) hab hcd e1 (flip e2) e3 e4
+  · exact path_shape _ b a d c (fun p => (hS p).trans (Iff.of_eq (by ac_rfl))) hbd hac (flip e1) e2 (flip e3) e4
+  · exact path_shape _ b d a c (fun p => (hS p).trans (Iff.of_eq (by ac_rfl))) hab.symm hcd.symm e1 (flip e2) e3 e4
+  · exact path_shape _ b a c d (fun p => (hS p).trans (Iff.of_eq (by ac_rfl))) hbc had (flip e1) e2 e3 e4
+  · exact path_shape _ b c a d (fun p => (hS p).trans (Iff.of_eq (by ac_rfl))) hab.symm hcd e1 (flip e2) e3 e4
+  · exact path_shape _ c a b d (fun p => (hS p).trans (Iff.of_eq (by ac_rfl))) hbc.symm had (flip e1) e2 e3 e4
+  · exact path_shape _ c b a d (fun p => (hS p).trans (Iff.of_eq (by ac_rfl))) hac.symm hbd (flip e1) (flip e2) e3 e4
+
+/-! ### the classification -/
+
+theorem tetromino_finite {S : Set (Nat × Nat)} (h : IsTetromino S) : S.Finite :=
+  Set.finite_of_ncard_ne_zero (by rw [h.1]; omega)
+
 /-- The classification lemma. -/
 theorem sameShape_iff_sameCode (A B : Set (Nat × Nat)) (hA : IsTetromino A) (hB : IsTetromino B)
     (hAs : NoSqSet A) (hBs : NoSqSet B) : SameShape A B ↔ SameCode A B := by
-  sorry
+  have fA := tetromino_finite hA
+  have fB := tetromino_finite hB
+  constructor
+  · exact sameCode_of_sameShape fA fB
+  · intro h
+    obtain ⟨i, hi⟩ := classify A hA hAs
+    obtain ⟨j, hj⟩ := classify B hB hBs
+    have ci := sameCode_of_sameShape fA (finite_list _) hi
+    have cj := sameCode_of_sameShape fB (finite_list _) hj
+    have hij : i = j :=
+      canon_code_inj ⟨ci.1.symm.trans (h.1.trans cj.1), ci.2.symm.trans (h.2.trans cj.2)⟩
+    subst hij
+    exact sameShape_trans hi (sameShape_symm hj)
 
 end Cspuz.Proofs.C11LitsShape
